@@ -149,6 +149,28 @@ def run_benign_patch(bid: str, patch: str, props: list[str], baseline: dict[str,
         shutil.rmtree(tmp, ignore_errors=True)
 
 
+MECHANICAL = (("rename-privates", "rename_privates.py"), ("rename-locals", "rename_locals.py"))
+
+
+def run_mechanical(mid: str, tool: str, props: list[str], baseline: dict[str, int]) -> dict:
+    """Whole-package mechanical renamings (every private name / every local variable): behaviour-preserving by
+    construction; every check must give the verdict it gives on the unrenamed tree."""
+    tmp = tempfile.mkdtemp(prefix="fm_selftest_")
+    try:
+        _copy_tree(tmp)
+        r = subprocess.run([sys.executable, str(VERIF / "tools" / tool), tmp], capture_output=True, text=True)
+        if r.returncode != 0:
+            return {"id": "mechanical:" + mid, "status": "skipped", "why": (r.stderr or r.stdout)[-200:]}
+        bad = {}
+        for prop in props:
+            rc, out = _run_check(prop, tmp)
+            if rc != baseline.get(prop, 0):
+                bad[prop] = {"rc": rc, "tail": out.splitlines()[-6:]}
+        return {"id": "mechanical:" + mid, "status": "silent" if not bad else "ALARM", "checks": bad}
+    finally:
+        shutil.rmtree(tmp, ignore_errors=True)
+
+
 def selftest(props: list[str] | None = None, jobs: int = 16) -> dict:
     sel = props or ALL_PROPS
     tmp = tempfile.mkdtemp(prefix="fm_selftest_base_")
@@ -164,6 +186,7 @@ def selftest(props: list[str] | None = None, jobs: int = 16) -> dict:
         mres += list(ex.map(lambda x: run_seeded(*x), seeds))
         bres = list(ex.map(lambda b: run_benign(b, sel, baseline), BENIGN))
         bres += list(ex.map(lambda x: run_benign_patch(x[0], x[1], sel, baseline), benign_patches()))
+        bres += list(ex.map(lambda x: run_mechanical(x[0], x[1], sel, baseline), MECHANICAL))
     return {
         "baseline_rc": baseline,
         "mutants": {"run": sum(1 for r in mres if r["status"] != "skipped"), "detected": sum(1 for r in mres if r["status"] == "detected"),
